@@ -1,22 +1,306 @@
+// X04 - neptune store/etcd WatchDir / Watcher against specs/etcdwatch.  The driver plays etcd (fake.go)
+// and the consumer, one step at a time with global quiescence (internal/qx) after every step, and logs
+// the action records EtcdWatch_Trace validates.  Plans come from TLC (EtcdWatch_Gen) and from a seeded
+// generator with larger domains and long back-logs.  The driver follows the plan and the fake's own
+// state only; steps that do not apply to what really happened are skipped (never logged).
 package main
 
 import (
 	"context"
+	"flag"
 	"fmt"
+	"math/rand"
 	"reflect"
+	"runtime"
+	"strings"
+	"sync"
+	"time"
 	"unsafe"
 
 	"github.com/pinealctx/neptune/store/etcd"
+	"github.com/pinealctx/neptune/ulog"
 	clientv3 "go.etcd.io/etcd/client/v3"
+	"go.etcd.io/etcd/api/v3/mvccpb"
+	"go.uber.org/zap"
+
+	"verif/harness/internal/qx"
+	"verif/harness/internal/tr"
 )
 
-func main() {
+const pkgFrag = "github.com/pinealctx/neptune/store/etcd."
+
+var (
+	out   *tr.W
+	logMu sync.Mutex
+	x     *qx.Exec
+)
+
+func emit(a tr.E) {
+	logMu.Lock()
+	out.Emit(tr.E{"ev": "step", "a": a})
+	logMu.Unlock()
+}
+
+func settle() {
+	if err := x.Settle(); err != nil {
+		tr.Fatal("x04: %v", err)
+	}
+}
+
+// goroutines (ids) that are inside neptune's etcd package right now
+func inPkg() map[string]bool {
+	buf := make([]byte, 1<<20)
+	for {
+		n := runtime.Stack(buf, true)
+		if n < len(buf) {
+			buf = buf[:n]
+			break
+		}
+		buf = make([]byte, 2*len(buf))
+	}
+	m := map[string]bool{}
+	for _, blk := range strings.Split(string(buf), "\n\n") {
+		if strings.Contains(blk, pkgFrag) {
+			m[strings.SplitN(blk, "[", 2)[0]] = true
+		}
+	}
+	return m
+}
+
+func newClient(f *fake) *etcd.Client {
 	ec := clientv3.NewCtxClient(context.Background())
+	ec.KV, ec.Watcher = f, f
 	c := &etcd.Client{}
 	v := reflect.ValueOf(c).Elem()
-	f := v.FieldByName("eCli")
-	reflect.NewAt(f.Type(), unsafe.Pointer(f.UnsafeAddr())).Elem().Set(reflect.ValueOf(ec))
-	r := v.FieldByName("root")
-	reflect.NewAt(r.Type(), unsafe.Pointer(r.UnsafeAddr())).Elem().SetString("/r")
-	fmt.Println(c)
+	set := func(name string, val reflect.Value) {
+		fl := v.FieldByName(name)
+		if !fl.IsValid() {
+			tr.Fatal("x04: etcd.Client has no field %s", name)
+		}
+		reflect.NewAt(fl.Type(), unsafe.Pointer(fl.UnsafeAddr())).Elem().Set(val)
+	}
+	set("eCli", reflect.ValueOf(ec))
+	set("root", reflect.ValueOf("/r"))
+	return c
+}
+
+type op struct {
+	Op  string `json:"op"`
+	T   string `json:"t"`
+	K   int    `json:"k"`
+	V   int    `json:"v"`
+	N   int    `json:"n"`
+	Why string `json:"why"`
+	Ok  bool   `json:"ok"`
+	// init line
+	Mode string `json:"mode"`
+	Ign  bool   `json:"ign"`
+}
+
+type run struct {
+	f        *fake
+	mode     string
+	ign      bool
+	began    bool
+	base     map[string]bool
+	// dir
+	retTaken bool
+	ch       <-chan etcd.DirEvent
+	cancel   context.CancelFunc
+	pcancel  context.CancelFunc
+	canceled bool
+	// watcher
+	w        *etcd.Watcher
+	stopped  bool // Stop issued
+	stopDone bool
+	closed   bool // consumer saw the channel closed
+	alt      int
+}
+
+func clamp(v int64) int {
+	if v > 1<<30 {
+		return 1 << 30
+	}
+	if v < -(1 << 30) {
+		return -(1 << 30)
+	}
+	return int(v)
+}
+
+func evRec(e *clientv3.Event) tr.E {
+	r := tr.E{"t": "other", "k": -1, "v": -1}
+	if e == nil || e.Kv == nil {
+		return r
+	}
+	var k, v int
+	if n, _ := fmt.Sscanf(string(e.Kv.Key), "/r/d/k%d", &k); n == 1 && string(e.Kv.Key) == keyName(k) {
+		r["k"] = k
+	}
+	switch e.Type {
+	case mvccpb.PUT:
+		r["t"] = "put"
+		if n, _ := fmt.Sscanf(string(e.Kv.Value), "v%d", &v); n == 1 && string(e.Kv.Value) == valName(v) {
+			r["v"] = v
+		}
+	case mvccpb.DELETE:
+		r["t"], r["v"] = "del", 0
+	}
+	return r
+}
+
+type retVal struct {
+	d      etcd.DirRet
+	ch     <-chan etcd.DirEvent
+	cancel context.CancelFunc
+	pnc    string
+}
+
+func (r *run) afterStep() {
+	settle()
+	if r.mode == "dir" && r.began && !r.retTaken {
+		if v, ok := x.Take(1); ok {
+			r.retTaken = true
+			rv := v.(retVal)
+			if rv.pnc != "" {
+				emit(tr.E{"op": "ret", "code": -1, "kvs": []tr.E{}, "rev": 0, "ch": false, "panic": rv.pnc})
+				return
+			}
+			kvs := make([]tr.E, 0)
+			for _, kv := range rv.d.KVS {
+				e := evRec(&clientv3.Event{Type: mvccpb.PUT, Kv: kv})
+				kvs = append(kvs, tr.E{"k": e["k"], "v": e["v"]})
+			}
+			r.ch, r.cancel = rv.ch, rv.cancel
+			emit(tr.E{"op": "ret", "code": int(etcd.ErrCode(rv.d.Err)), "kvs": kvs, "rev": clamp(rv.d.Revision), "ch": rv.ch != nil})
+			if rv.ch == nil {
+				r.closed = true
+			}
+		}
+	}
+	if r.mode == "watcher" && r.stopped && !r.stopDone {
+		if _, ok := x.Take(2); ok {
+			r.stopDone, r.closed = true, true
+			emit(tr.E{"op": "stopret"})
+		}
+	}
+}
+
+func (r *run) start() {
+	r.began = true
+	emit(tr.E{"op": "start"})
+	cli := newClient(r.f)
+	if r.mode == "dir" {
+		pctx, pc := context.WithCancel(context.Background())
+		r.pcancel = pc
+		ign := r.ign
+		x.Issue(1, func() (res interface{}) {
+			defer func() {
+				if p := recover(); p != nil {
+					res = retVal{pnc: fmt.Sprint(p)}
+				}
+			}()
+			d, ch, cancel := cli.WatchDir(pctx, "d", time.Hour, ign)
+			return retVal{d: d, ch: ch, cancel: cancel}
+		})
+	} else {
+		r.w = etcd.NewWatcher(cli, "d", time.Hour, 0)
+		if r.ign {
+			r.w.StartWatchDir()
+		} else {
+			r.w.StartWatchDirWhenExist()
+		}
+	}
+	r.afterStep()
+}
+
+func (r *run) chanOf() <-chan etcd.DirEvent {
+	if r.mode == "dir" {
+		return r.ch
+	}
+	return r.w.DirChan()
+}
+
+// one receive at quiescence; returns what it saw
+func (r *run) recv() string {
+	var res tr.E
+	kind := "item"
+	select {
+	case d, ok := <-r.chanOf():
+		switch {
+		case !ok:
+			res, kind, r.closed = tr.E{"k": "closed"}, "closed", true
+		case d.Err != nil:
+			res, kind = tr.E{"k": "err", "code": int(etcd.ErrCode(d.Err))}, "err"
+		default:
+			evs := make([]tr.E, 0, len(d.Events))
+			for _, e := range d.Events {
+				evs = append(evs, evRec(e))
+			}
+			res = tr.E{"k": "item", "evs": evs, "rev": clamp(d.Revision)}
+		}
+	default:
+		res, kind = tr.E{"k": "empty"}, "empty"
+	}
+	emit(tr.E{"op": "recv", "r": res})
+	r.afterStep()
+	return kind
+}
+
+func (r *run) canRecv() bool {
+	return r.began && !r.closed && !r.stopped && (r.mode == "watcher" || (r.retTaken && r.ch != nil))
+}
+
+func (r *run) doCancel() {
+	emit(tr.E{"op": "cancel"})
+	r.canceled = true
+	r.alt++
+	if r.alt%2 == 0 && r.pcancel != nil {
+		r.pcancel() // the parent context is the documented cancel controller as well
+	} else {
+		r.cancel()
+	}
+	r.afterStep()
+}
+
+func (r *run) doStop() {
+	r.stopped = true
+	w := r.w
+	x.Issue(2, func() interface{} { w.Stop(); return "ret" })
+	settle()
+	if _, ok := x.Take(2); ok {
+		r.stopDone, r.closed = true, true
+		emit(tr.E{"op": "stop", "r": "ret"})
+	} else {
+		emit(tr.E{"op": "stop", "r": "blocked"})
+	}
+	r.afterStep()
+}
+
+func main() {
+	plans := flag.String("plans", "", "directory of TLC plans")
+	outp := flag.String("out", "x04.ndjson", "trace file")
+	seed := flag.Int64("seed", 1, "seed")
+	nhist := flag.Int("hist", 100, "seeded histories")
+	flag.Parse()
+	ulog.SetDefaultLogger(&ulog.Logger{Logger: zap.NewNop()})
+	out = tr.Create(*outp)
+	x = qx.New(2)
+	x.Budget = 20 * time.Second
+	n := 0
+	if *plans != "" {
+		for _, p := range listPlans(*plans) {
+			mode, ign, ops := loadPlan(p)
+			execute(mode, ign, ops, "plan")
+			n++
+		}
+	}
+	rng := rand.New(rand.NewSource(*seed))
+	for i := 0; i < *nhist; i++ {
+		style := []int{0, 0, 1, 1, 1, 2}[i%6]
+		mode, ign, ops := genHistory(rng, style)
+		execute(mode, ign, ops, fmt.Sprintf("hist%d", style))
+		n++
+	}
+	out.Close()
+	fmt.Printf("traces=%d events=%d\n", n, out.N())
 }
